@@ -109,7 +109,13 @@ func (ex *Exec) ifaceGhost(st *State, iv IfaceV, name string) *Term {
 			if t == nil {
 				continue
 			}
-			if at := ex.typeAttrTerm(st, nil, t, name); at != nil {
+			var pl Val
+			if ts := ex.P.CS.Types[tn]; ts != nil && ts.Attrs[name] != nil && strings.Contains(ts.Attrs[name].Src, "self") {
+				// an attribute computed from the value (PrimitiveStaticType: the kind it denotes): evaluated on the
+				// interface value's payload of that type
+				pl = ex.payload(st, iv, t)
+			}
+			if at := ex.typeAttrTerm(st, pl, t, name); at != nil {
 				ex.Assumes = append(ex.Assumes, Implies(Eq(iv.Kind, IntC(int64(ex.P.TypeTag(t)))), Eq(g, at)))
 			}
 		}
